@@ -5,3 +5,4 @@ import IcontractModel.Chain
 import IcontractModel.Spec.Dnf
 import IcontractModel.Lemmas.Res
 import IcontractModel.Lemmas.CheckerSync
+import IcontractModel.Props.C01
